@@ -71,9 +71,12 @@ func runMassiveVerdict(c Case) []Diff {
 				noteKnown("c02.massive-indent-char-switch-between-roots")
 				break
 			}
-			if simple == nil && classify(err) == "nilstack" && listRootBeforeHeading(doc) {
+			if cls := errClass(classify(err)); simple == nil && (cls == "nilstack" || cls == "format") && listRootBeforeHeading(doc) {
 				// known finding: whether an unindented list row before the first heading is a root depends on
-				// whether another worker has already parsed a heading (parser shared by the generator workers)
+				// whether another worker has already parsed a heading (parser shared by the generator workers):
+				// once the heading mode is latched, the rows of the list block are one level deeper — the block's
+				// root row meets no stack (`nil stack`), or a later row of it jumps a level (a format error naming
+				// that row)
 				noteKnown("c02.massive-list-roots-before-heading-roots")
 				break
 			}
